@@ -71,6 +71,12 @@ def make_case(rng):
     cfg_id = rng.randrange(len(llmon.TOKCFGS))
     cfg = llmon.TOKCFGS[cfg_id]
     terms = rng.sample(cfg.terminals, min(len(cfg.terminals), rng.choice([2, 3, 4, 4])))
+    if rng.random() < 0.08 and len(terms) >= 2:
+        prods = gram.gen_nullable_led_grammar(rng, terms)
+        return cfg_id, terms, gram.shuffle_declaration_order(rng, prods)
+    if rng.random() < 0.06 and len(terms) >= 3:
+        prods = gram.gen_prefix_divergence_grammar(rng, terms)
+        return cfg_id, terms, gram.shuffle_declaration_order(rng, prods)
     if rng.random() < 0.35:
         if len(cfg.terminals) >= 8:
             terms = rng.sample(cfg.terminals, rng.choice([4, 5, 6]))
